@@ -31,6 +31,9 @@ def check(ctx):
     jobs += [("pp:da", inc), ("pp:db", inc), ("sv:da", "module m;\n" + inc + "endmodule\n"), ("sv:db", "module m;\n" + inc + "endmodule\n"),
              ("pp:dc", inc), ("pp::PRE=1", "`ifdef PRE\np `PRE\n`endif\n"), ("pp::PRE=2", "`ifdef PRE\np `PRE\n`endif\n"),
              ("pp", "`ifdef PRE\np\n`else\nq\n`endif\n")]
+    # the same text under different flags (strip_comments, ignore_include): the flags are arguments of the call
+    cm = "`define M(a) a /* c */ + 1\n`M(x /* d */)\n`M(y // e\n)\nz // f\n`include \"cfg.svh\"\n"
+    jobs += [("pp:da", cm), ("pps:da", cm), ("ppi:da", cm), ("pps:db", cm)]
     jobs += r.sample(pool, 6 if q else 60)
     for _ in range(3 if q else 30):
         g = ppgen.Gen(r, includes=False)
